@@ -151,15 +151,23 @@ func (cl *Loader) load(file string) (config map[string]interface{}, err error) {
 
 	var raw map[string]interface{}
 	importDir := path.Dir(file)
-	if imports, ok := config["import"]; ok {
-		for _, v := range imports.([]interface{}) {
-			if utils.IsURL(v.(string)) {
-				if cl.imports[v.(string)] {
+	if imports, ok := config["import"]; ok && imports != nil {
+		list, ok := imports.([]interface{})
+		if !ok {
+			return nil, fmt.Errorf("%s: import must be a list of files, directories or URLs", file)
+		}
+		for _, v := range list {
+			name, ok := v.(string)
+			if !ok {
+				return nil, fmt.Errorf("%s: import entries must be strings", file)
+			}
+			if utils.IsURL(name) {
+				if cl.imports[name] {
 					continue
 				}
-				raw, err = cl.load(v.(string))
+				raw, err = cl.load(name)
 			} else {
-				importFile := path.Join(importDir, v.(string))
+				importFile := path.Join(importDir, name)
 				if cl.imports[importFile] {
 					continue
 				}
